@@ -320,6 +320,44 @@ def stray_gen(tier):
     return gen
 
 
+# forall over every kind of table expression (a variable, an element, a temporary, a function result, ...) in both orders
+def forall_sources():
+    for ln in range(0, 4):
+        items = list(range(1, ln + 1))
+        build = "tab(0, 0)" + "".join(".concat(%d)" % i for i in items)
+        srcs = {
+            "variable": ("ts = %s;" % build, "ts"),
+            "temporary": ("", build),
+            "enclosed-variable": ("ts = %s;" % build, "(ts)"),
+            "function-result": ("function fts() return table is begin return %s; end;" % build, "fts()"),
+            "function-returning-variable": ("ts = %s; function fts(x) return table is begin return x; end;" % build, "fts(ts)"),
+            "opaque-function-result": ("ts = %s; function fts(x) return undefined is begin return x; end;" % build, "fts(ts)"),
+            "element": ("tts = tab(2, %s);" % build, "tts.at(1)"),
+            "element-of-temporary": ("", "tab(2, %s).at(0)" % build),
+            "tuple-free-copy": ("ts = %s; us = ts;" % build, "us"),
+            "concat-temporary": ("ts = %s;" % build, "tab(0, 0).concat(ts)"),
+        }
+        for sname, (pre, expr) in srcs.items():
+            for o in ("", "asc", "desc"):
+                seq = items if o != "desc" else items[::-1]
+                for body, f in (("print e;", lambda q: "".join("%d\n" % v for v in q)),
+                                ("if e == 2 then break; end if; print e;", lambda q: "".join("%d\n" % v for v in q[:q.index(2)] if True) if 2 in q else "".join("%d\n" % v for v in q)),
+                                ("for k in 1 to 2 loop if k == 2 then continue; end if; print e * 10 + k; end loop;", lambda q: "".join("%d\n" % (v * 10 + 1) for v in q))):
+                    prog = '%s forall e in %s %s loop %s end loop; print "done";' % (pre, expr, o, body)
+                    yield "%s:%s:%d" % (sname, o or "auto", ln), prog, f(seq) + "done\n"
+
+
+def sources_gen(tier):
+    def gen():
+        n = 0
+        for tag, prog, want in forall_sources():
+            for route in (("cpp", "capi") if tier == "thorough" else ("cpp",)):
+                ops = [op_ctx(), op_run(DECL + " vn = bool(); ni = int();"), op_run(prog, route=route), op_out(), op_dump(0, "I1"), op_run(PROBES), op_out(), op_dump(0, "I")]
+                yield Case("fs%d" % n, ops, {"kind": "ifchain", "tag": "forall-source:" + tag.rsplit(":", 1)[0], "where": route, "prog": prog, "want": want})
+                n += 1
+    return gen
+
+
 def ifchain_gen(tier):
     def gen():
         n = 0
@@ -498,6 +536,7 @@ def run(tier):
     total.merge(explore_gcc("%s-%s-headers" % (PROP, tier), header_gen(tier), check, chunk=200, deadline=deadline))
     total.merge(explore("%s-%s-ifchains" % (PROP, tier), ifchain_gen(tier), check, chunk=200, deadline=deadline))
     total.merge(explore("%s-%s-stray" % (PROP, tier), stray_gen(tier), check, chunk=20, deadline=deadline))
+    total.merge(explore("%s-%s-forall-sources" % (PROP, tier), sources_gen(tier), check, chunk=50, deadline=deadline))
     from . import c09
     total.merge(explore("%s-%s-lock" % (PROP, tier), c09.forall_gen(tier), check, chunk=50, deadline=deadline))
     total.merge(explore("%s-%s-nesting" % (PROP, tier), nest_gen(tier), check, chunk=200, deadline=deadline))
